@@ -9,6 +9,7 @@ import FsVerif.Model.BufStore
 import FsVerif.Model.PrioReq
 import FsVerif.Model.Node.Source
 import FsVerif.Model.Node.Machine
+import FsVerif.Model.Config
 open FsVerif
 
 def parseInt (s : String) : Option Int := s.toInt?
@@ -117,11 +118,31 @@ def parseAns (ws : List String) : Ans :=
 
 def showCalls (cs : List Call) : String := "; ".intercalate (cs.map Call.show)
 
+def parseNum : String → Option NumKind
+  | "neg" => some .neg | "zero" => some .zero | "pos" => some .pos | "none" => some .noneVal | "notnum" => some .notNum | _ => none
+def parseCapK : String → Option CapKind
+  | "neg" => some .neg | "zero" => some .zero | "pos" => some .pos | "notint" => some .notInt | _ => none
+def parsePolK : String → Option PolKind
+  | "fa" => some .fa | "rr" => some .rr | "rnd" => some .rnd | "constok" => some .constOk | "constbad" => some .constBad
+  | "badstring" => some .badString | "none" => some .noneVal | "callable" => some .callable | _ => none
+
+def validateLine (w : List String) : String :=
+  match w with
+  | [cap, mode, bd, iat, blk, sp, pd, su, ip, op, sc, mi, mo, kc] =>
+    match parseCapK cap, parseNum bd, parseNum iat, parsePolK sp, parseNum pd, parseNum su, parsePolK ip, parsePolK op with
+    | some cap, some bd, some iat, some sp, some pd, some su, some ip, some op =>
+      (validate { cap := cap, modeOK := mode == "1", bufDelay := bd, iat := iat, srcBlocking := blk == "1", srcPol := sp,
+                  pd := pd, setup := su, inPol := ip, outPol := op, srcConnected := sc == "1", machIn := mi == "1",
+                  machOut := mo == "1", sinkConnected := kc == "1" }).show
+    | _, _, _, _, _, _, _, _ => "bad-op"
+  | _ => "bad-op"
+
 def stepLine (m : M) (line : String) : M × String :=
   let w := (line.trimAscii.toString.splitOn " ").filter (· ≠ "")
   match w with
   | [] => (m, "")
   | ["end"] => (.none, "end")
+  | "validate" :: rest => (m, validateLine rest)
   | ["new", "pos", cap, prio, filt, td] =>
     match parseCap cap, parseNat prio, parseNat filt, parseNat td with
     | some c, some p, some f, some d =>
